@@ -46,6 +46,12 @@ def gen_text(rng, tier):
         h = rng.choice([50, 500, 5000]) if tier != 'quick' else rng.choice([50, 500, 2000])
         d = rng.choice([50, 500, 5000]) if tier != 'quick' else rng.choice([50, 500, 2000])
         return 'big_counts', '혀' + '어' * (h - 2) + '엉' + rng.choice(['.', '…', '⋮.']) * d + rng.choice(['', '?♥', '\n형'])
+    if k < 0.965:
+        # Windows line endings (and other line-ish separators) between short lines that are rich in start / end
+        # syllables: locations, and the "is there an end syllable later" rule, must not depend on the separator
+        sep = rng.choice(['\r\n', '\r\n', '\r\n', '\n\r', '\r', '\u2028', '\x0b', '\u0085\n'])
+        lines = [''.join(rng.choice(list('혀하흐엉앙앗읏읍윽어.?♥ 형항')) for _ in range(rng.randint(0, 10))) for _ in range(rng.randint(2, 9))]
+        return 'crlf_lines', sep.join(lines) + rng.choice(['', sep, '혀', sep + '하어'])
     # multi-line layout for locations
     lines = [noise.random_text(rng, 25).replace('\r', '') for _ in range(rng.randint(2, 8))]
     return 'multiline', '\n'.join(lines)
